@@ -383,6 +383,25 @@ fn run_case(r: &mut Rng, dir: PathBuf, dist: &mut Dist, steps: usize, n: u64) ->
     dist.hit(&format!("cfg.n{}.prevote{}.fast{}.geo{}", n, k.pre_vote as u8, k.fast_path as u8, k.geometric as u8));
     let (mut run, mp) = start(&k, r, dir);
     let loss = *r.pick(&[0u64, 0, 10, 30]); // per-message loss percentage for this schedule
+    // half of the schedules start from a warm cluster: a leader with a few entries committed on a quorum (one node
+    // possibly left behind), so that the commit clauses and compaction have something to act on
+    if r.chance(1, 2) {
+        let l = r.below(n);
+        let voters: Vec<u64> = (0..n).filter(|j| *j != l).collect();
+        let need = (n / 2) as usize; // votes besides its own
+        let mut warm: Vec<Op> = vec![Op::Elect(l)];
+        for v in voters.iter().take(need) { warm.push(Op::DeliverLast(l, *v, "RV")); warm.push(Op::DeliverLast(*v, l, "RVR")); }
+        warm.push(Op::Heartbeat(l));
+        for v in voters.iter().take(need) { warm.push(Op::DeliverLast(l, *v, "AE")); warm.push(Op::DeliverLast(*v, l, "AER")); }
+        for _ in 0..r.range(1, 5) { warm.push(Op::Propose(l)); }
+        for _ in 0..2 {
+            warm.push(Op::Heartbeat(l));
+            for v in voters.iter().take(need) { warm.push(Op::DeliverLast(l, *v, "AE")); warm.push(Op::DeliverLast(*v, l, "AER")); }
+        }
+        for op in &warm { run.exec(op, dist); }
+        run.fresh.clear();
+        dist.hit("case.warm_start");
+    }
     for _ in 0..steps {
         let have_pool = !run.sim.pool.is_empty();
         let leader_now: Option<u64> = (0..n).find(|i| run.sim.nodes[*i as usize].state() == RaftState::Leader);
